@@ -280,3 +280,22 @@ def replay_file(pid, path):
     if out.get("hang") or "fatal" in out:
         print("  the case hangs or dies:", {k: v for k, v in out.items() if k != "res"})
     return 0
+
+
+def tlaps(module):
+    """Re-prove spec/proofs/<module>.tla from scratch in a scratch copy (TLAPS); -> number of obligations proved.
+    A failing or missing prover is a tool error, never a verdict."""
+    import tempfile
+    ensure_dirs()
+    d = tempfile.mkdtemp(prefix="tlaps-", dir=WORK)
+    try:
+        shutil.copy(os.path.join(SPEC, "proofs", module + ".tla"), d)
+        p = subprocess.run(["timeout", "600", "tlapm", "--cleanfp", "--threads", "4", module + ".tla"], cwd=d,
+                           stdout=subprocess.PIPE, stderr=subprocess.STDOUT, text=True)
+        m = re.search(r"All (\d+) obligations? proved", p.stdout)
+        if not m:
+            log(p.stdout[-2000:])
+            raise ToolError(f"TLAPS does not prove spec/proofs/{module}.tla")
+        return {"module": module, "obligations_proved": int(m.group(1))}
+    finally:
+        shutil.rmtree(d, ignore_errors=True)
